@@ -647,15 +647,48 @@ def lit(s):
     return "'" + "".join(out) + "'"
 
 
+TRAILING_NL = ["ab\n", "a\nb\n\n", "\n", "中\n"]
+
+
+def trailing_newline_trees():
+    """Depth-2 family `Trailing-newline` (seed C01-e2): decorations / containers that size a FIXED (or 'pack'ed) child by
+    its pack(), over Text whose content ends in one / two line breaks (str, wide, bytes, lone newline)."""
+    out = []
+    for t in ("'ab\\n'", "'a\\nb\\n\\n'", "'\\n'", "'中\\n'", "b'ab\\n'", "b'a\\n\\n'"):
+        T = f"Text({t})"
+        out += [
+            f"Padding({T}, 'left', 'pack')",
+            f"Padding({T}, 'center', 'clip')",
+            f"AttrMap({T}, 'a')",
+            f"WidgetWrap({T})",
+            f"Columns([('pack', {T}), Text('x\\n')])",
+            f"Pile([('pack', {T}), ('pack', Text('-'))])",
+            f"Pile([{T}, Text('-')])",
+            f"LineBox({T})",
+            f"Filler({T}, 'top', 'pack')",
+            f"Button({t})",
+            f"SelectableIcon({t}, 1)",
+        ]
+        # (a lone line break packs to 0 columns x 2 rows: as a 'pack' column of a fixed Columns it is the hidden
+        # zero-width column of C01-KF2 -- pack(()) counts its 2 rows, render(()) hides it; reported, kept out of here)
+        if eval(t).strip():  # noqa: S307
+            out.append(f"Columns([('pack', {T}), ('pack', Text('|'))])")
+    return out
+
+
 def texts(enc, mode, thorough):
     """Text literals (python source) for the mode: ASCII, double-width CJK, zero-width combining, DEC
     line-drawing, str and bytes; str texts that the target encoding cannot represent are kept (they are
     rendered with replacement characters)."""
     strs = ["", "a", "ab cd", "中", "a中b", "e\u0301x", "\u0301", "a\nbc", "┌─┐x"]
+    # Strengthened (seed C01-e2): texts ENDING in one and in two line breaks and a lone line break, str and bytes -- the
+    # last display row is then empty and FIXED sizing (pack(())) has to count it like render(()) does; no text of the
+    # first alphabet ended in a newline (quick had "a\nbc" only)
+    strs += TRAILING_NL
     if thorough:
-        strs += ["abcdefgh", "中文字", " a ", "\n", "a\u0301\u0302中 b\n\u0301"]
+        strs += ["abcdefgh", "中文字", " a ", "a\u0301\u0302中 b\n\u0301", "中\n\n\n", "\n\n"]
     out = [lit(s) for s in strs]
-    byt = [b"a", b"ab cd", b"\x0eqx\x0fy"]
+    byt = [b"a", b"ab cd", b"\x0eqx\x0fy", b"ab\n", b"a\n\n", b"\n"]
     for s in ("中", "a中b", "e\u0301x", "\u0301", "\xe9t\xe9") + (("中文字", "a\u0301\u0302中 b\n\u0301") if thorough else ()):
         try:
             b = s.encode(enc)
@@ -1006,6 +1039,7 @@ def enumerate_trees(enc, mode, tier):
     d2 = {}
     d2.update(decorations(C, 2 if thorough else 1))
     d2.update(containers(C, F, B, 2 if thorough else 1))
+    d2["Trailing-newline"] = trailing_newline_trees()
     return d1, d2
 
 
